@@ -126,8 +126,10 @@ func (w *world) planRound(np, start, stop, tip int, forced []string, forcedD []i
 				kind = "liar"
 			case x < 82:
 				kind = "flaky"
-			case x < 90:
+			case x < 88:
 				kind = "silent"
+			case x < 94:
+				kind = "overlong"
 			default:
 				kind = "wrongprev"
 			}
@@ -139,6 +141,7 @@ func (w *world) planRound(np, start, stop, tip int, forced []string, forcedD []i
 		prev := tip
 		switch kind {
 		case "honest":
+		case "overlong":
 		case "silent":
 		case "wrongprev":
 			// a header that is not the tip: the header below the tip, or a liar's value
@@ -196,7 +199,32 @@ func (w *world) planRound(np, start, stop, tip int, forced []string, forcedD []i
 		}
 		rp.kind = kind
 		w.t.Hit("peer." + kind)
-		if kind != "silent" {
+		// an answer with MORE filter hashes than asked for (right stop hash, the
+		// requested positions as this peer would answer them, then a surplus)
+		long := func() pmsg {
+			ext := append([]int(nil), fids...)
+			k := 1 + r.Intn(3)
+			for j := 0; j < k; j++ {
+				if r.Intn(2) == 0 {
+					ext = append(ext, w.variant(w.chain[stop], "junk"))
+				} else {
+					ext = append(ext, w.chain[maxi(stop-j, 0)].trueFid)
+				}
+			}
+			w.chainOf(prev, ext)
+			return w.mkmsg(stopHash, true, prev, ext)
+		}
+		if kind == "overlong" {
+			// nothing but the over-long answer
+			rp.msgs = append(rp.msgs, long())
+			if r.Intn(3) == 0 {
+				rp.msgs = append(rp.msgs, long())
+			}
+		} else if kind != "silent" {
+			if r.Intn(6) == 0 {
+				rp.msgs = append(rp.msgs, long())
+				w.t.Hit("noise.long")
+			}
 			// noise first: messages the response filter must drop
 			if r.Intn(6) == 0 {
 				rp.msgs = append(rp.msgs, w.mkmsg(stopHash, false, prev, fids))
